@@ -24,7 +24,7 @@ ASSUMPTIONS = [
     "volumes are compared with -1e-12 * (sum of |corner values|): floating-point cancellation scale of the 2^d-corner sum",
     "mixed derivative relation decided by integration (scipy nquad, 1e-9) against exact F-volumes, not by numerical differentiation",
 ]
-REQUIRED_COUNTERS = ["grounded_checks", "volume_checks", "margin_checks", "conditional_monotone_checks", "inverse_roundtrips",
+REQUIRED_COUNTERS = ["degenerate_rectangles", "tiny_magnitude_rectangles", "grounded_checks", "volume_checks", "margin_checks", "conditional_monotone_checks", "inverse_roundtrips",
                      "mixed_derivative_checks", "copula_parameter_reassigned", "volume_checks_all_infinite_upper_corner"]
 MIN_NONTRIVIAL = {"quick": 30, "thorough": 300}
 THOROUGH_ROUNDS = 8      # the thorough tier runs the generators this many times (different seeds)
@@ -151,6 +151,36 @@ def run_case(case, R):
         if not (abs(lv - vol) <= 1e-12 * scale + 1e-300):
             R.violation("library-volume-operator-differs", f"{label}: levycopulamodel.volume gives {lv!r}, the 2^d-corner sum {vol!r}", wit)
             break
+    # ---- rectangles with a side of zero length (a_k = b_k): empty, volume 0 -- through the library's operator too -----------------------------
+    for _ in range(10):
+        a = np.array([_mag(rng) * (1 if rng.random() < 0.5 else -1) for _ in range(d)])
+        b = a + np.abs(a) * rng.uniform(0.1, 3.0, size=d)
+        kz = int(rng.integers(d))
+        b[kz] = a[kz]
+        if d == 3 and rng.random() < 0.3:
+            b[(kz + 1) % 3] = a[(kz + 1) % 3]
+        R.hit("degenerate_rectangles")
+        vol, scale = _volume(F, a, b)
+        lv = float(lib_volume(lambda g: F(np.array(list(g), dtype=float)), list(a), list(b)))
+        if not (abs(vol) <= 1e-12 * scale + 1e-300 and abs(lv) <= 1e-12 * scale + 1e-300):
+            R.violation(f"{kind}-{d}d-empty-rectangle-has-volume", f"{label}: the rectangle ({a.tolist()}, {b.tolist()}] has a side of zero length; 2^d-corner sum {vol!r}, "
+                        f"levycopulamodel.volume {lv!r}", wit)
+            break
+    # ---- arguments of very small magnitude (1e-200 .. 1e-165: their product underflows), every orthant ------------------------------------------
+    if kind != "clayton" or c["theta"] <= 1.4:          # (|u|^-theta stays inside the double range)
+        for _ in range(12):
+            sg = np.array([1.0 if rng.random() < 0.5 else -1.0 for _ in range(d)])
+            lo_ = 10.0 ** rng.uniform(-200, -165, size=d)
+            a, b = np.minimum(sg * lo_, sg * lo_ * 2.0), np.maximum(sg * lo_, sg * lo_ * 2.0)
+            R.hit("tiny_magnitude_rectangles")
+            vol, scale = _volume(F, a, b)
+            if not (vol >= -1e-12 * scale):
+                R.violation(f"{kind}-{d}d-negative-volume-tiny-arguments", f"{label}: the rectangle ({a.tolist()}, {b.tolist()}] has volume {vol!r} < 0 (corner magnitude {scale!r})", wit)
+                break
+            fu = float(F(np.array(b)))
+            if kind == "clayton" and 0.0 < c["eta"] < 1.0 and fu != 0.0 and (fu > 0) != (np.prod(sg) > 0):
+                R.violation(f"{kind}-{d}d-sign-of-F-tiny-arguments", f"{label}: F({b.tolist()}) = {fu!r}, the product of the signs of the arguments is {np.prod(sg)!r}", wit)
+                break
     # ---- one-dimensional margins are the identity ------------------------------------------------------------------
     for i in range(d):
         m = lib_margin(F, [i], d)
